@@ -181,6 +181,8 @@ def replay(args):
                 parent_ids = [i for i in (objs[o]._verif_ids)] if hasattr(objs[o], '_verif_ids') else [1, 2, 3, 4]
                 child = index_obj(objs[o], arg, parent_ids, objkind)
                 objs['C' if o == 'P' else 'G'] = child
+                if o == 'P':
+                    objs.pop('G', None)          # a new slice of the parent replaces the old one and what was built on it
             elif op == 'get_absent':
                 ob = objs[o]
                 try:
@@ -251,6 +253,11 @@ def run(ctx):
     hists = [h for h in hists if any(s['op'] != 'eval' for s in h)]
     if not q:
         hists = hists[::3]          # every third depth-4 history (still all depth-3 prefixes are covered on the way)
+    else:
+        # histories that index the parent a second time: every third one in the quick tier
+        re = [h for h in hists if sum(1 for st in h if st['op'] == 'index' and st['obj'] == 'P') >= 2]
+        keep = {id(h) for h in re[::3]}
+        hists = [h for h in hists if sum(1 for st in h if st['op'] == 'index' and st['obj'] == 'P') < 2 or id(h) in keep]
     jobs = []
     for h in hists:
         has_extra = any(s['op'] in ('add_extra', 'remove_extra') for s in h)
